@@ -197,6 +197,12 @@ fn merge(mut rec: Value, obs: Value) -> Value {
 fn run_program(dir: &Path, cfg: &RCfg, prog: &[Step]) -> Vec<Value> {
   let _ = std::fs::remove_dir_all(dir);
   std::fs::create_dir_all(dir).unwrap();
+  if std::env::var_os("FV_LOGX_FOREIGN").is_some() {
+    // probe only: rolled files of another appender whose prefix extends ours ("app2" vs "app")
+    std::fs::write(dir.join("app2.log"), b"##").unwrap();
+    std::fs::write(dir.join("app2.2024-02-28_23-58-00.1.log"), b"####").unwrap();
+    std::fs::write(dir.join("app2.2024-02-28_23-58-00.2.log"), b"####").unwrap();
+  }
   let mut clock = Clock { gran: cfg.gran.clone(), period: 0, off: 5 };
   let mut recs = Vec::new();
   let mut sizes: Vec<u64> = Vec::new();
